@@ -65,6 +65,10 @@ def nonlinear_models(tier):
                 'time_decay': [gen([], [A], ('*', NUM(k), ('exp', ('neg', ('t',))))), ma([A], [B], 0.5)],
                 'time_linear': [gen([], [B], ('*', NUM(k), ('+', NUM(1), ('t',)))), ma([B], [C], 0.7)],
                 'delayed_nonlinear': [dict(ma([A, B], [], k), delay=dict(type='fixed', delay=0.5, reactants=[], products=[C, C])), ma([], [A], 1.0)],
+                # one species changed by the immediate AND by the delayed part of the same reaction (the rate equations use the sum)
+                'delayed_overlap_cat': [dict(ma([A], [], k), delay=dict(type='fixed', delay=0.5, reactants=[], products=[A, B])), ma([B], [C], 0.6)],
+                'delayed_overlap_dimer': [dict(ma([A, A], [B], k), delay=dict(type='fixed', delay=0.3, reactants=[], products=[A, C, C])), ma([], [A], 1.0)],
+                'delayed_overlap_reactant': [dict(ma([B], [], k), delay=dict(type='fixed', delay=0.3, reactants=[B], products=[C])), ma([A], [B, B], 0.9)],
             }
             for name, core in cores.items():
                 out.append(spec(name, [A, B, C], x0, core + sink()))
@@ -261,6 +265,13 @@ def tolerances(c, item):
     if how == 'setter':
         sim.py_set_tolerance(atol, rtol)
         out = np.asarray(sim.py_simulate(iface, times).py_get_result())
+    elif how == 'atol-keyword-only':
+        # one tolerance through the setter, the other as a keyword of the call: each keeps its own value
+        sim.py_set_tolerance(1e-9, rtol)
+        out = np.asarray(sim.py_simulate(iface, times, atol=atol).py_get_result())
+    elif how == 'rtol-keyword-only':
+        sim.py_set_tolerance(atol, 1e-3)
+        out = np.asarray(sim.py_simulate(iface, times, rtol=rtol).py_get_result())
     else:
         out = np.asarray(sim.py_simulate(iface, times, atol=atol, rtol=rtol).py_get_result())
     order = m.get_species_list()
@@ -281,6 +292,10 @@ def run(ctx):
     eff += [(2000, 5000, 'setter'), (20000, 50000, 'keyword'), (2000, 2500, 'setter')] + ([] if ctx.quick else [(4000, 5000, 'keyword'), (30000, 40000, 'setter')])
     pmap(effort, eff, ctx, nshards=len(eff))
     tl = [(a_, r_, sc, how) for (a_, r_, sc) in ((1e-13, 1e-6, 1e-6), (1e-4, 1e-12, 1e3), (1e-10, 1e-10, 1.0), (1e-12, 1e-5, 1e-4)) for how in ('setter', 'keywords')]
+    # a loose absolute next to a tight relative tolerance on large states (and the reverse on small ones), each also with only one of the
+    # two given in the call
+    tl += [(a_, r_, sc, how) for (a_, r_, sc) in ((1e-2, 1e-12, 1e4), (1e-3, 1e-12, 3e3), (1e-14, 1e-3, 1e-5))
+           for how in ('setter', 'keywords', 'atol-keyword-only', 'rtol-keyword-only')]
     pmap(tolerances, tl, ctx, nshards=len(tl))
     pmap(sweep, [(g, via) for g in ('u025', 'geo', 'two') for via in ('interface', 'entry-interface', 'model')], ctx, nshards=9)
     models = affine_models(ctx.tier) + nonlinear_models(ctx.tier)
@@ -294,9 +309,9 @@ def run(ctx):
     ctx.rule = ('E2: (a) every affine network assembled from <= 3 reactions of a 9-reaction menu (sources, sinks, conversions, catalytic and '
                 'double production, two delayed reactions) x rate alphabet {0.3,1,2.5} x initial alphabet {0,1,4.5}^3 (strided as stated in '
                 'the bounds), reference = augmented matrix exponential; (b) 13 non-linear families (bimolecular, dimer, third and fourth order '
-                'with repeats, four Hill families, rational, explicitly time-dependent, delayed non-linear) x rates x initial states, '
+                'with repeats, four Hill families, rational, explicitly time-dependent, delayed non-linear, a species changed by both the immediate and the delayed part of one reaction) x rates x initial states, '
                 'reference = DOP853 at rtol 1e-12 on the reference right-hand side; (c) uniform, geometric (with a repeated tiny gap) and '
-                'two-point grids from 0. Both entry points, a second independent model with the species declared in reverse order, plus a second run / a re-prepared run / an entry-point run on the same interface object, and a parameter sweep (Model.set_params) on one kept Model and interface; (d) a linear network under a user-set maximum step size (setter and keyword) across gaps that need 300..80000 (thorough 300000) internal steps, with the default step ceiling and with user-set ceilings above the need; (e) user-set tolerances (setter and keywords) that differ from each other on states of magnitude 1e-6..1e3, error within 200 (atol + rtol |x|). Oracle: first row is the initial condition exactly; every row within '
+                'two-point grids from 0. Both entry points, a second independent model with the species declared in reverse order, plus a second run / a re-prepared run / an entry-point run on the same interface object, and a parameter sweep (Model.set_params) on one kept Model and interface; (d) a linear network under a user-set maximum step size (setter and keyword) across gaps that need 300..80000 (thorough 300000) internal steps, with the default step ceiling and with user-set ceilings above the need; (e) user-set tolerances (setter, keywords, and one through the setter with the other as a keyword) that differ from each other by up to ten orders of magnitude on states of magnitude 1e-6..1e4, error within 200 (atol + rtol |x|). Oracle: first row is the initial condition exactly; every row within '
                 '1e-5*(1+|x|). states = (model, grid) runs.')
     ctx.assumptions = ['finite family of well-posed non-stiff models; continuous parameter domains are represented by the alphabets only',
                        'odeint runs at atol=rtol=1.49e-8, the band is >100x that']
